@@ -1,31 +1,312 @@
 (* C11 - fingerprint operators implement set algebra and pointwise arithmetic.
-   Statements only; proofs are in Proofs/FprintOps.v.  Model: Model/Fprint.v (M2). *)
+   Statements only; proofs are in Proofs/FprintOps.v.  Model: Model/Fprint.v (M2).
+
+   Reading guide.  `fidx` = the `indices` array, `fcnt` = the `_counts` dict (association list), `cget m i` = m.get(i, 0),
+   `ckeys` = the dict's keys, `cast_value k` = the counts setter of class k (int() = truncation for CountFingerprint,
+   float() = identity for FloatFingerprint).  `==` is equality of rationals (Qeq), `=` is syntactic equality.
+   Every implication is followed by an `Example` exhibiting a concrete input that satisfies its hypotheses.
+
+   In-place forms (a |= b, a += b, a *= x, ...) and reflected forms: the code implements `__iop__`/`__rop__` by calling
+   the plain method, so the model has one function per operator; the correspondence (harness/props/c11.py) checks on the
+   implementation that `a op= b` returns the value of `a op b`, that `b.__rop__(a)` returns `b op a`, and that no operand
+   is changed by any form.  "Operands unchanged" holds by construction in the model (values are immutable); it is a
+   statement about the implementation only and is checked there, on every case. *)
 From Coq Require Import QArith.
 From E3FP Require Import Base.Prelude Base.ZSet Model.Fprint Proofs.FprintOps.
 Open Scope Z_scope.
 
-(* | and + on bit fingerprints: union of the set bits, operands' length kept *)
+(* ---------------------------------------------------------------------------------------------- *)
+(* set operators on bit fingerprints                                                               *)
+
+(* | : union of the set bits, operands' length kept *)
 Theorem or_spec : forall a b r, fp_or a b = Ok r ->
   fbits r = fbits a /\ forall i, In i (fidx r) <-> In i (fidx a) \/ In i (fidx b).
 Proof. exact or_spec. Qed.
 Print Assumptions or_spec.
+Example or_spec_nonvacuous :
+  fp_or (mkfp KBit 8 (Some 5) [1; 3] [] None) (mkfp KBit 8 (Some 5) [3; 6] [] None) = Ok (mkfp KBit 8 (Some (-1)) [1; 3; 6] [] None).
+Proof. vm_compute. reflexivity. Qed.
 
 Theorem and_spec : forall a b r, fp_and a b = Ok r ->
   fbits r = fbits a /\ forall i, In i (fidx r) <-> In i (fidx a) /\ In i (fidx b).
 Proof. exact and_spec. Qed.
 Print Assumptions and_spec.
+Example and_spec_nonvacuous :
+  fp_and (mkfp KBit 8 (Some 5) [1; 3] [] None) (mkfp KBit 8 (Some 5) [3; 6] [] None) = Ok (mkfp KBit 8 (Some (-1)) [3] [] None).
+Proof. vm_compute. reflexivity. Qed.
 
 Theorem sub_spec : forall a b r, fp_bit_sub a b = Ok r ->
   fbits r = fbits a /\ forall i, In i (fidx r) <-> In i (fidx a) /\ ~ In i (fidx b).
 Proof. exact bit_sub_spec. Qed.
 Print Assumptions sub_spec.
+Example sub_spec_nonvacuous :
+  fp_bit_sub (mkfp KBit 8 (Some 5) [1; 3] [] None) (mkfp KBit 8 (Some 5) [3; 6] [] None) = Ok (mkfp KBit 8 (Some (-1)) [1] [] None).
+Proof. vm_compute. reflexivity. Qed.
 
 Theorem xor_spec : forall a b r, fp_xor a b = Ok r ->
   fbits r = fbits a /\
   forall i, In i (fidx r) <-> (In i (fidx a) /\ ~ In i (fidx b)) \/ (In i (fidx b) /\ ~ In i (fidx a)).
 Proof. exact xor_spec. Qed.
 Print Assumptions xor_spec.
+Example xor_spec_nonvacuous :
+  fp_xor (mkfp KBit 8 (Some 5) [1; 3] [] None) (mkfp KBit 8 (Some 5) [3; 6] [] None) = Ok (mkfp KBit 8 (Some (-1)) [1; 6] [] None).
+Proof. vm_compute. reflexivity. Qed.
+
+(* + on bit fingerprints is | ; Python's dispatch of + and - on a bit left operand *)
+Theorem add_bit_is_or : forall a b, fp_bit_add a b = fp_or a b.
+Proof. exact add_bit_is_or. Qed.
+Print Assumptions add_bit_is_or.
+
+Theorem add_dispatch_bit : forall a b, fkind a = KBit -> fp_add a b = fp_or a b /\ fp_sub a b = fp_bit_sub a b.
+Proof. exact add_dispatch_bit. Qed.
+Print Assumptions add_dispatch_bit.
+
+(* reflected forms of the commutative operators: b.__ror__(a) is computed as b | a, which is a | b (whole results
+   are equal, including the rejection of unequal lengths) *)
+Theorem reflected_forms_equal_plain : forall a b,
+  fp_or b a = fp_or a b /\ fp_and b a = fp_and a b /\ fp_xor b a = fp_xor a b /\ fp_bit_add b a = fp_bit_add a b.
+Proof. exact reflected_forms_equal_plain. Qed.
+Print Assumptions reflected_forms_equal_plain.
+
+(* totality: on well-formed operands (every stored position < length; the code does not reject negative positions,
+   nor does this) of equal length no set operator raises; the result is given explicitly *)
+Theorem set_ops_total : forall a b, wf_idx a -> wf_idx b -> fbits a = fbits b ->
+  (exists r, fp_or a b = Ok r) /\ (exists r, fp_bit_add a b = Ok r) /\ (exists r, fp_and a b = Ok r) /\
+  (exists r, fp_bit_sub a b = Ok r) /\ (exists r, fp_xor a b = Ok r).
+Proof. exact set_ops_total. Qed.
+Print Assumptions set_ops_total.
+Example set_ops_total_nonvacuous :
+  wf_idx (mkfp KBit 8 None [0; 7] [] None) /\ wf_idx (mkfp KBit 8 (Some 2) [-3; 7] [] None).
+Proof. split; repeat constructor. Qed.
+
+(* results are again well-formed, strictly increasing index lists *)
+Theorem set_op_result_wf : forall op a b r, bit_binop op a b = Ok r -> wf_idx r /\ ssorted (fidx r).
+Proof. exact bit_binop_wf. Qed.
+Print Assumptions set_op_result_wf.
 
 Theorem bits_mismatch_rejected : forall op a b, fbits a <> fbits b -> bit_binop op a b = Raises EBits.
 Proof. exact bit_binop_mismatch. Qed.
 Print Assumptions bits_mismatch_rejected.
+Example bits_mismatch_nonvacuous :
+  fp_or (mkfp KBit 8 None [1] [] None) (mkfp KBit 16 None [1] [] None) = Raises EBits.
+Proof. vm_compute. reflexivity. Qed.
+
+(* ---------------------------------------------------------------------------------------------- *)
+(* + and - on count / float fingerprints: position by position on the union of the supports        *)
+Theorem count_add_spec : forall a b r, count_binop Qplus a b = Ok r ->
+  fbits r = fbits a /\ fkind r = result_kind a b /\ flevel r = merged_level a b /\ fname r = None /\
+  fidx r = zunion (ckeys (fcnt a)) (ckeys (fcnt b)) /\ ckeys (fcnt r) = fidx r /\
+  (forall i, In i (fidx r) <-> In i (ckeys (fcnt a)) \/ In i (ckeys (fcnt b))) /\
+  (forall i, cget (fcnt r) i = cast_value (fkind r) (cget (fcnt a) i + cget (fcnt b) i)%Q).
+Proof. exact count_add_spec. Qed.
+Print Assumptions count_add_spec.
+Example count_add_nonvacuous :
+  count_binop Qplus (mkfp KCount 8 (Some 5) [1; 3] [(1, 2 # 1); (3, 7 # 1)] None)
+                    (mkfp KCount 8 (Some 2) [3; 6] [(3, 1 # 1); (6, 4 # 1)] None)
+  = Ok (mkfp KCount 8 (Some (-1)) [1; 3; 6] [(1, 2 # 1); (3, 8 # 1); (6, 4 # 1)] None).
+Proof. vm_compute. reflexivity. Qed.
+
+Theorem count_sub_spec : forall a b r, count_binop Qminus a b = Ok r ->
+  fbits r = fbits a /\ fkind r = result_kind a b /\ flevel r = merged_level a b /\ fname r = None /\
+  fidx r = zunion (ckeys (fcnt a)) (ckeys (fcnt b)) /\ ckeys (fcnt r) = fidx r /\
+  (forall i, In i (fidx r) <-> In i (ckeys (fcnt a)) \/ In i (ckeys (fcnt b))) /\
+  (forall i, cget (fcnt r) i = cast_value (fkind r) (cget (fcnt a) i - cget (fcnt b) i)%Q).
+Proof. exact count_sub_spec. Qed.
+Print Assumptions count_sub_spec.
+Example count_sub_nonvacuous :
+  count_binop Qminus (mkfp KFloat 8 (Some 5) [1; 3] [(1, 5 # 2); (3, 7 # 1)] None)
+                     (mkfp KCount 8 (Some 5) [3; 6] [(3, 1 # 1); (6, 4 # 1)] None)
+  = Ok (mkfp KFloat 8 (Some 5) [1; 3; 6] [(1, 5 # 2); (3, 6 # 1); (6, (-4) # 1)] None).
+Proof. vm_compute. reflexivity. Qed.
+
+(* integer-valued counts: the int() cast changes nothing, the result is the integer sum / difference *)
+Theorem count_add_int : forall a b r i n m, count_binop Qplus a b = Ok r ->
+  cget (fcnt a) i = inject_Z n -> cget (fcnt b) i = inject_Z m -> cget (fcnt r) i = inject_Z (n + m).
+Proof. exact count_add_int. Qed.
+Print Assumptions count_add_int.
+
+Theorem count_sub_int : forall a b r i n m, count_binop Qminus a b = Ok r ->
+  cget (fcnt a) i = inject_Z n -> cget (fcnt b) i = inject_Z m -> cget (fcnt r) i = inject_Z (n - m).
+Proof. exact count_sub_int. Qed.
+Print Assumptions count_sub_int.
+Example count_int_nonvacuous :
+  cget (fcnt (mkfp KCount 8 (Some 5) [1; 3] [(1, 2 # 1); (3, 7 # 1)] None)) 3 = inject_Z 7 /\
+  cget (fcnt (mkfp KCount 8 (Some 2) [3; 6] [(3, 1 # 1); (6, 4 # 1)] None)) 3 = inject_Z 1.
+Proof. split; reflexivity. Qed.
+
+(* Python dispatch: + / - with a count or float left operand is the count arithmetic above *)
+Theorem add_dispatch_count : forall a b, is_count_like a = true ->
+  fp_add a b = count_binop Qplus a b /\ fp_sub a b = count_binop Qminus a b.
+Proof. exact add_dispatch_count. Qed.
+Print Assumptions add_dispatch_count.
+
+Theorem count_ops_total : forall f a b, is_count_like a = true -> is_count_like b = true -> fbits a = fbits b ->
+  wf_cnt a -> wf_cnt b -> exists r, count_binop f a b = Ok r.
+Proof. exact count_binop_total. Qed.
+Print Assumptions count_ops_total.
+Example count_ops_total_nonvacuous :
+  wf_cnt (mkfp KCount 8 (Some 5) [1; 3] [(1, 2 # 1); (3, 7 # 1)] None) /\
+  wf_cnt (mkfp KFloat 8 (Some 2) [3; 6] [(3, 1 # 2); (6, 4 # 1)] None).
+Proof. split; repeat constructor. Qed.
+
+Theorem count_bits_mismatch_rejected : forall f a b, is_count_like a = true -> is_count_like b = true ->
+  fbits a <> fbits b -> count_binop f a b = Raises EBits.
+Proof. exact count_bits_mismatch_rejected. Qed.
+Print Assumptions count_bits_mismatch_rejected.
+Example count_bits_mismatch_nonvacuous :
+  fp_add (mkfp KCount 8 None [1] [(1, 2 # 1)] None) (mkfp KCount 16 None [1] [(1, 2 # 1)] None) = Raises EBits.
+Proof. vm_compute. reflexivity. Qed.
+
+(* ---------------------------------------------------------------------------------------------- *)
+(* scalar * / //                                                                                    *)
+(* a * x: same class, every count multiplied (and cast by the class: int() for CountFingerprint) *)
+Theorem mul_spec : forall a x r, is_count_like a = true -> fp_mul a x = Ok r ->
+  fkind r = fkind a /\ fbits r = fbits a /\ flevel r = flevel a /\ fname r = fname a /\
+  ckeys (fcnt r) = ckeys (fcnt a) /\
+  (forall i, In i (ckeys (fcnt a)) -> cget (fcnt r) i = cast_value (fkind a) (cget (fcnt a) i * x)%Q) /\
+  (forall i, cget (fcnt r) i == cast_value (fkind a) (cget (fcnt a) i * x)%Q).
+Proof. exact mul_spec. Qed.
+Print Assumptions mul_spec.
+Example mul_nonvacuous :
+  fp_mul (mkfp KCount 8 (Some 5) [1; 3] [(1, 2 # 1); (3, 7 # 1)] (Some "m"%string)) (3 # 1)
+  = Ok (mkfp KCount 8 (Some 5) [1; 3] [(1, 6 # 1); (3, 21 # 1)] (Some "m"%string)).
+Proof. vm_compute. reflexivity. Qed.
+
+(* a / x: a FloatFingerprint with every count divided *)
+Theorem div_spec : forall a x r, is_count_like a = true -> fp_div a x = Ok r ->
+  ~ x == 0 /\ fkind r = KFloat /\ fbits r = fbits a /\ flevel r = flevel a /\ fname r = fname a /\
+  ckeys (fcnt r) = ckeys (fcnt a) /\
+  (forall i, In i (ckeys (fcnt a)) -> cget (fcnt r) i = (cget (fcnt a) i / x)%Q) /\
+  (forall i, cget (fcnt r) i == (cget (fcnt a) i / x)%Q).
+Proof. exact div_spec. Qed.
+Print Assumptions div_spec.
+Example div_nonvacuous :
+  fp_div (mkfp KCount 8 (Some 5) [1; 3] [(1, 2 # 1); (3, 7 # 1)] None) (2 # 1)
+  = Ok (mkfp KFloat 8 (Some 5) [1; 3] [(1, 2 # 2); (3, 7 # 2)] None).
+Proof. vm_compute. reflexivity. Qed.
+
+(* a // x: a CountFingerprint; exactly the positions holding a count v >= x are kept (indices and count keys agree),
+   each with int(v / x); positions with v < x are dropped *)
+Theorem floordiv_spec : forall a x r, is_count_like a = true -> fp_floordiv a x = Ok r ->
+  ~ x == 0 /\ fkind r = KCount /\ fbits r = fbits a /\ flevel r = flevel a /\ fname r = fname a /\
+  (forall i, In i (fidx r) <-> exists v, In (i, v) (fcnt a) /\ (x <= v)%Q) /\
+  (forall i, In i (ckeys (fcnt r)) <-> In i (fidx r)) /\ ssorted (fidx r) /\
+  (NoDup (ckeys (fcnt a)) -> forall i,
+     cget (fcnt r) i = if zmem i (ckeys (fcnt a)) && Qle_bool x (cget (fcnt a) i)
+                       then qtrunc (cget (fcnt a) i / x)%Q else 0%Q).
+Proof. exact floordiv_spec. Qed.
+Print Assumptions floordiv_spec.
+
+Theorem floordiv_kept : forall a x r i, is_count_like a = true -> NoDup (ckeys (fcnt a)) -> fp_floordiv a x = Ok r ->
+  In i (ckeys (fcnt a)) -> (x <= cget (fcnt a) i)%Q ->
+  In i (fidx r) /\ cget (fcnt r) i = qtrunc (cget (fcnt a) i / x)%Q.
+Proof. exact floordiv_kept. Qed.
+Print Assumptions floordiv_kept.
+
+Theorem floordiv_dropped : forall a x r i, is_count_like a = true -> NoDup (ckeys (fcnt a)) -> fp_floordiv a x = Ok r ->
+  (cget (fcnt a) i < x)%Q -> ~ In i (fidx r) /\ cget (fcnt r) i = 0%Q.
+Proof. exact floordiv_dropped. Qed.
+Print Assumptions floordiv_dropped.
+Example floordiv_nonvacuous :
+  fp_floordiv (mkfp KCount 8 (Some 5) [1; 3; 6] [(1, 2 # 1); (3, 7 # 1); (6, 3 # 1)] None) (3 # 1)
+  = Ok (mkfp KCount 8 (Some 5) [3; 6] [(3, 2 # 1); (6, 1 # 1)] None)
+  /\ NoDup (ckeys [(1, 2 # 1); (3, 7 # 1); (6, 3 # 1)]).
+Proof. split; [vm_compute; reflexivity|]. repeat constructor; simpl; intuition discriminate. Qed.
+
+(* ---------------------------------------------------------------------------------------------- *)
+(* batch sum and mean: `wsum l w i` is the sum over the paired members of count_a(i) * w_a;           *)
+(* `csum l i` the plain sum of count_a(i); `counts_of` gives 1 per set bit for bit fingerprints      *)
+Theorem wsum_is_weighted_sum : forall l w i,
+  wsum l w i = qsum (map (fun aw => (cget (counts_of (fst aw)) i * snd aw)%Q) (combine l w)).
+Proof. exact wsum_combine. Qed.
+Print Assumptions wsum_is_weighted_sum.
+
+Theorem wsum_ones_is_sum : forall l i, wsum l (ones (length l)) i == csum l i.
+Proof. exact wsum_ones. Qed.
+Print Assumptions wsum_ones_is_sum.
+
+Theorem batch_add_spec : forall l r, batch_add l None = Ok (Some r) ->
+  (exists a0 l', l = a0 :: l' /\ fbits r = fbits a0 /\ flevel r = flevel a0) /\
+  fkind r = batch_kind l /\ fname r = None /\
+  fidx r = all_keys l /\ ckeys (fcnt r) = fidx r /\
+  (forall i, In i (fidx r) <-> exists a, In a l /\ In i (ckeys (counts_of a))) /\
+  (forall i, cget (fcnt r) i = cast_value (fkind r) (wsum l (ones (length l)) i)).
+Proof. exact batch_add_spec. Qed.
+Print Assumptions batch_add_spec.
+
+(* ... which is the plain sum whenever the int() cast is the identity: a float member makes the result a
+   FloatFingerprint; otherwise all members are integer-valued (bit and count fingerprints always are) *)
+Theorem batch_add_sum : forall l r, batch_add l None = Ok (Some r) ->
+  (any_float l = true \/ forall a, In a l -> int_counts a) ->
+  forall i, cget (fcnt r) i == csum l i.
+Proof. exact batch_add_sum. Qed.
+Print Assumptions batch_add_sum.
+Example batch_add_nonvacuous :
+  batch_add [mkfp KBit 8 (Some 5) [1; 3] [] None; mkfp KCount 8 (Some 2) [3; 6] [(3, 2 # 1); (6, 4 # 1)] None;
+             mkfp KCount 8 None [1] [(1, 9 # 1)] None] None
+  = Ok (Some (mkfp KCount 8 (Some 5) [1; 3; 6] [(1, 10 # 1); (3, 3 # 1); (6, 4 # 1)] None)).
+Proof. vm_compute. reflexivity. Qed.
+
+Theorem batch_add_weighted_spec : forall l ws r, batch_add l (Some ws) = Ok (Some r) ->
+  length ws = length l /\
+  (exists a0 l', l = a0 :: l' /\ fbits r = fbits a0 /\ flevel r = flevel a0) /\
+  fkind r = KFloat /\ fname r = None /\ fidx r = all_keys l /\ ckeys (fcnt r) = fidx r /\
+  (forall i, In i (fidx r) <-> exists a, In a l /\ In i (ckeys (counts_of a))) /\
+  (forall i, In i (fidx r) -> cget (fcnt r) i = wsum l ws i) /\
+  (forall i, cget (fcnt r) i == wsum l ws i).
+Proof. exact batch_add_weighted_spec. Qed.
+Print Assumptions batch_add_weighted_spec.
+Example batch_add_weighted_nonvacuous :
+  result_eqb (option_eqb (fp_obs_eqb))
+    (batch_add [mkfp KBit 8 (Some 5) [1; 3] [] None; mkfp KCount 8 (Some 2) [3; 6] [(3, 2 # 1); (6, 4 # 1)] None]
+               (Some [1 # 2; 3 # 1]))
+    (Ok (Some (mkfp KFloat 8 (Some 5) [1; 3; 6] [(1, 1 # 2); (3, 13 # 2); (6, 12 # 1)] None))) = true.
+Proof. vm_compute. reflexivity. Qed.
+
+(* weighted mean: weights normalised by their sum *)
+Theorem batch_mean_weighted_spec : forall l ws r, batch_mean l (Some ws) = Ok (Some r) ->
+  ~ qsum ws == 0 /\ length ws = length l /\ fkind r = KFloat /\ fidx r = all_keys l /\ ckeys (fcnt r) = fidx r /\
+  (exists a0 l', l = a0 :: l' /\ fbits r = fbits a0 /\ flevel r = flevel a0) /\
+  (forall i, cget (fcnt r) i == (wsum l ws i / qsum ws)%Q).
+Proof. exact batch_mean_weighted_spec. Qed.
+Print Assumptions batch_mean_weighted_spec.
+Example batch_mean_weighted_nonvacuous :
+  result_eqb (option_eqb (fp_obs_eqb))
+    (batch_mean [mkfp KBit 8 (Some 5) [1; 3] [] None; mkfp KCount 8 (Some 2) [3; 6] [(3, 2 # 1); (6, 4 # 1)] None]
+                (Some [1 # 1; 3 # 1]))
+    (Ok (Some (mkfp KFloat 8 (Some 5) [1; 3; 6] [(1, 1 # 4); (3, 7 # 4); (6, 3 # 1)] None))) = true.
+Proof. vm_compute. reflexivity. Qed.
+
+(* unweighted mean = sum / n *)
+Theorem batch_mean_spec : forall l r, batch_mean l None = Ok (Some r) ->
+  l <> [] /\ fkind r = KFloat /\ ckeys (fcnt r) = all_keys l /\
+  (exists a0 l', l = a0 :: l' /\ fbits r = fbits a0 /\ flevel r = flevel a0) /\
+  (forall i, cget (fcnt r) i ==
+             (cast_value (batch_kind l) (wsum l (ones (length l)) i) / inject_Z (Z.of_nat (length l)))%Q).
+Proof. exact batch_mean_spec. Qed.
+Print Assumptions batch_mean_spec.
+
+Theorem batch_mean_is_sum_over_n : forall l r, batch_mean l None = Ok (Some r) ->
+  (any_float l = true \/ forall a, In a l -> int_counts a) ->
+  forall i, cget (fcnt r) i == (csum l i / inject_Z (Z.of_nat (length l)))%Q.
+Proof. exact batch_mean_is_sum_over_n. Qed.
+Print Assumptions batch_mean_is_sum_over_n.
+Example batch_mean_nonvacuous :
+  result_eqb (option_eqb (fp_obs_eqb))
+    (batch_mean [mkfp KBit 8 (Some 5) [1; 3] [] None; mkfp KFloat 8 (Some 2) [3; 6] [(3, 5 # 2); (6, 4 # 1)] None] None)
+    (Ok (Some (mkfp KFloat 8 (Some 5) [1; 3; 6] [(1, 1 # 2); (3, 7 # 4); (6, 2 # 1)] None))) = true
+  /\ any_float [mkfp KBit 8 (Some 5) [1; 3] [] None; mkfp KFloat 8 (Some 2) [3; 6] [(3, 5 # 2); (6, 4 # 1)] None] = true.
+Proof. split; vm_compute; reflexivity. Qed.
+
+(* bit fingerprints are integer-valued (the hypothesis of the two `_sum` theorems is satisfiable for mixed batches) *)
+Theorem bit_members_int_valued : forall a, fkind a = KBit -> int_counts a.
+Proof. exact bit_int_counts. Qed.
+Print Assumptions bit_members_int_valued.
+
+(* rejections of the batch functions *)
+Theorem batch_rejections :
+  (batch_add [] None = Ok None /\ batch_mean [] None = Raises EType) /\
+  (forall l ws, l <> [] -> length ws <> length l -> batch_add l (Some ws) = Raises EValue) /\
+  (forall l ws, qsum ws == 0 -> batch_mean l (Some ws) = Raises EValue).
+Proof. exact batch_rejections. Qed.
+Print Assumptions batch_rejections.
